@@ -90,6 +90,14 @@ def check(ctx):
             for j in range(v):
                 if out3[j] > out[j] + allowance(lb[j], ub[j]):
                     C.issue('span-not-monotone', 'oracle', rp, full=out.tolist(), half=out3.tolist())
+            # bounds given as arrays (as spaces hold them), same objects used twice: arguments untouched, same answer
+            lba, uba, arr2 = np.array(lb, dtype=float), np.array(ub, dtype=float), np.array(arr, copy=True)
+            o1 = hc.span(arr2, lba, uba)
+            o2 = hc.span(arr2, lba, uba)
+            if not (np.array_equal(lba, np.array(lb, dtype=float)) and np.array_equal(uba, np.array(ub, dtype=float)) and np.array_equal(arr2, arr)):
+                C.issue('span-modified-its-arguments', 'oracle', dict(rp, bounds='ndarray'))
+            elif not (np.array_equal(o1, out, equal_nan=True) and np.array_equal(o2, out, equal_nan=True)):
+                C.issue('span-not-a-function-of-its-arguments', 'oracle', dict(rp, bounds='ndarray'), first=o1.tolist(), second=o2.tolist(), lists=out.tolist())
             lines.append(f"n.span {enc_bits(lb)} {enc_bits(ub)} {';'.join(enc_bits(r) for r in arr)}")
             exp.append([fbits(x) for x in out])
             meta.append(rp)
@@ -108,14 +116,32 @@ def check(ctx):
             sp = L['HyperSpace'](n_agents=3, n_variables=v, n_dimensions=d, n_iterations=1, lower_bound=lb, upper_bound=ub)
             for a in sp.agents:
                 a.position += np.random.normal(0, 3, a.position.shape)
-            sp.check_limits()
             rp = dict(how='hyper', lb=lb, ub=ub, v=v, d=d)
+            # the agent's own limit enforcement (what trial-evaluating optimisers call) is the unit box too
+            a0 = sp.agents[0]
+            a0.check_limits()
+            if np.any(a0.position < 0) or np.any(a0.position > 1):
+                C.issue('hyper-agent-own-limits-not-unit-box', 'oracle', rp, pos=a0.position.tolist(), agent_lb=np.asarray(a0.lb).tolist(), agent_ub=np.asarray(a0.ub).tolist())
+            sp.check_limits()
             for a in sp.agents:
                 if np.any(a.position < 0) or np.any(a.position > 1):
                     C.issue('hyper-agent-outside-unit-box', 'oracle', rp, pos=a.position.tolist())
                 s = hc.span(a.position, lb, ub)
                 judge(C, np, hc.span, a.position, lb, ub, s, dict(how='span', arr=a.position.tolist(), lb=lb, ub=ub))
             C.case(key=('hyper', tuple(lb), tuple(ub), v, d), nontrivial=bmode != 'unit', kind='hyperspace')
+        # optimisation runs on hypercomplex spaces with bounds outside [0, 1]: every evaluated point in the unit box
+        import runpass, runlevel
+        kinds = ['ABC', 'HS', 'SA', 'BHA', 'PSO', 'CS', 'FPA', 'BA'] if ctx['tier'] == 'quick' else [k for k in runlevel.KINDS if k != 'GP']
+        for kind in kinds:
+            cfg = dict(kind=kind, space='hyper', n_agents=4, n_vars=2, n_dims=C.rng.randint(1, 3), n_iter=3, box='offset',
+                       lb=[-10.0, -3.0], ub=[10.0, 7.0], objective='sphere', rettype='py', hyper={}, adv=0.15, hook='observer',
+                       store_best_only=False, seed=C.rng.randrange(1 << 30))
+            r = runpass.analyse_run(cfg, drv, props=['C01'])
+            for i in r['issues']['C01']:
+                if not i.get('known'):
+                    C.issue('hyper-run-' + i['what'], 'oracle', dict(how='runlevel', cfg=cfg, what=i['what']), detail=str(i)[:300])
+                    break
+            C.case(key=('hyper-run', kind), nontrivial=True, kind='hyper-run')
     finally:
         drv.close()
     return C.result()
@@ -133,6 +159,17 @@ def replay(prop, payload):
     L = lib.load()
     np = L['np']
     import opytimizer.math.hypercomplex as hc
+    if payload.get('how') == 'runlevel':
+        import runpass
+        drv = common.Driver()
+        try:
+            r = runpass.analyse_run(payload['cfg'], drv, props=['C01'])
+        finally:
+            drv.close()
+        return any(not i.get('known') for i in r['issues']['C01'])
+    if payload.get('how') != 'span':
+        res = check(dict(seed=0, tier='quick', prop=prop))
+        return any(i['layer'] == 'oracle' and not i.get('known') for i in res['issues'])
     C = Comp(dict(seed=0, tier='quick'), '')
     arr = np.array(payload['arr'], dtype=float)
     out = hc.span(arr, payload['lb'], payload['ub'])
